@@ -468,6 +468,10 @@ type c19DistTransport struct {
 }
 
 func (t *c19DistTransport) RoundTrip(r *http.Request) (*http.Response, error) {
+	// As net/http's transport: a request whose context has ended fails.
+	if err := r.Context().Err(); err != nil {
+		return nil, err
+	}
 	i := t.n
 	t.n++
 	ans := ""
